@@ -236,6 +236,14 @@ def _signal_case(case):
                         fails.append(_sf("input-mutated", kind, "apply_response modified its input signal"))
                     outs[(fr, vt, bi)] = np.asarray(out.values)
                     nontriv.append("%s|sig|%s|%s|%d|%s" % (kind, z, vt.name, bi, fr))
+                # homogeneity far away from unit scale (weak fields of 1e-9 V/m are ordinary inputs)
+                if vt in (T.voltage, T.field):
+                    for a_ in (1e-9, 1e-15, 1e9):
+                        n += 1
+                        out = obj.apply_response(Signal(t, a_ * base[3], vt), direction=d, polarization=p, force_real=fr)
+                        if not np.max(np.abs(np.asarray(out.values) - a_ * outs[(fr, vt, 3)])) <= 1e-12 * a_ * max(1e-300, float(np.max(np.abs(outs[(fr, vt, 3)])))):
+                            fails.append(_sf("homogeneity", kind, "response(%g * s) != %g * response(s) for a %s signal (max |response| %.3g)"
+                                             % (a_, a_, vt.name, float(np.max(np.abs(np.asarray(out.values)))))))
                 # linearity in the signal
                 if vt in (T.voltage, T.field):
                     comb = Signal(t, 2.0 * base[0] - 0.5 * base[3], vt)
